@@ -43,6 +43,11 @@ type input struct {
 	// and whether it reports its end as an error wrapping io.EOF
 	FailErr string `json:"fail_err,omitempty"`
 	WrapEOF bool   `json:"wrap_eof,omitempty"`
+	// how the error is delivered: "" = (0, err) on the read after the data, sticky; "data_sticky" /
+	// "data_once_eof" / "data_once_continue" = TOGETHER with the last data before the failure offset
+	// (see encx.WithError); OneRead: everything before the failure offset comes in a single read
+	FailMode string `json:"fail_mode,omitempty"`
+	OneRead  bool   `json:"one_read,omitempty"`
 	// recipe "sequence": the recipe of the stream that runs (and fails) first
 	First string `json:"first,omitempty"`
 }
@@ -523,7 +528,10 @@ func run(ctx *core.Ctx, in input) error {
 	var sc encx.SItems
 	if c.failAt >= 0 {
 		sc = encx.GenItems(r, c.failAt, 2*(in.Style%2), 1+r.Intn(c.failAt+1), maxItems)
-		sc = append(sc, encx.SItem{K: "f"})
+		if in.OneRead && c.failAt > 0 {
+			sc = encx.SItems{{K: "d", N: c.failAt}}
+		}
+		sc = encx.WithError(sc, in.FailMode, len(c.doc)-c.failAt)
 	} else {
 		sc = encx.GenItems(r, len(c.doc), in.Style, 1+r.Intn(len(c.doc)+1), maxItems)
 	}
@@ -535,15 +543,24 @@ func run(ctx *core.Ctx, in input) error {
 	}
 	cs := hx.Case{Kind: "tamper", Input: hx.MustJSON(in)}
 	cs.Facts = map[string]any{"recipe": in.Recipe, "plaintext_empty": len(c.p) == 0, "big": in.Big,
-		"unwrap_returns_file_key": c.unwrapOK, "mutated": c.mutated, "fail_err": in.FailErr, "wrap_eof": in.WrapEOF}
+		"unwrap_returns_file_key": c.unwrapOK, "mutated": c.mutated, "fail_err": in.FailErr, "wrap_eof": in.WrapEOF,
+		"fail_mode": in.FailMode, "one_read": in.OneRead}
 	cs.Class = fmt.Sprintf("%s/%s/%s/kw%d/%s/%s%v", in.Recipe, encx.LenClass(len(c.p)), encx.CphNames[in.Cph], in.Kw, sc.Shape(),
-		in.FailErr, in.WrapEOF)
+		in.FailErr+in.FailMode, in.WrapEOF)
 	if c.failAt >= 0 {
 		fe := in.FailErr
 		if fe == "" {
 			fe = "sentinel"
 		}
 		ctx.Sink.Count("source_error=" + fe)
+		fm := in.FailMode
+		if fm == "" {
+			fm = "no_data_sticky"
+		}
+		if in.OneRead {
+			fm += "/one_read"
+		}
+		ctx.Sink.Count("source_error_delivery=" + fm)
 	}
 	if in.WrapEOF {
 		ctx.Sink.Count("source_end=error_wrapping_EOF")
@@ -720,10 +737,20 @@ func gen(ctx *core.Ctx) {
 							continue
 						}
 						// every identity of the source's error at every offset class
-						for _, fe := range encx.FailNames {
-							in.FailErr = fe
+						modes := []string{"", "data_sticky", "data_once_eof", "data_once_continue"}
+						for i, fe := range encx.FailNames {
+							in.FailErr, in.FailMode, in.OneRead = fe, modes[(i+cph)%4], false
 							in.Seed = r.U64()
 							must(in)
+						}
+						// every way of delivering the error, chunked and with everything before the
+						// failure offset in ONE read (the read that completes the header / the document)
+						for _, fm := range modes[1:] {
+							for _, one := range []bool{false, true} {
+								in.FailErr, in.FailMode, in.OneRead = "", fm, one
+								in.Seed = r.U64()
+								must(in)
+							}
 						}
 						continue
 					}
@@ -772,6 +799,7 @@ func gen(ctx *core.Ctx) {
 				Style: styles[r.Intn(4)], Big: true}
 			if strings.HasPrefix(name, "fail_") {
 				in.FailErr = encx.FailNames[k%len(encx.FailNames)]
+				in.FailMode = []string{"", "data_sticky", "data_once_eof", "data_once_continue"}[(k/2)%4]
 			}
 			must(in)
 		}
